@@ -4,8 +4,8 @@
    back end computes; [c12_good uses defs] = every used name is among the defined ones. *)
 From Coq Require Import String List.
 From TS Require Import Model.Str Model.Outcome Model.Unicode Model.Types Model.Parse Model.Lang.Common Model.Lang.Decl
-                       Model.Lang.Swift Model.Lang.Scala Model.Lang.Go Model.Lang.Kotlin Spec.C12Spec Proofs.C12Obs.
-From TS Require Proofs.C12 Proofs.C12_Swift Proofs.C12_Go Proofs.C12_Kotlin.
+                       Model.Lang.Swift Model.Lang.Scala Model.Lang.Go Model.Lang.Kotlin Model.Lang.Python Spec.C12Spec Proofs.C12Obs.
+From TS Require Proofs.C12 Proofs.C12_Swift Proofs.C12_Go Proofs.C12_Kotlin Proofs.C12_Python.
 Import ListNotations.
 
 (* Swift, single file: for every program and configuration (any prefix, mappings, decorators), ()
@@ -86,3 +86,52 @@ Theorem C12_kotlin_jvminline_refuted :
   c12_good [lit "Serializable"; lit "JvmInline"] [lit "Serializable"; lit "SerialName"] = false.
 Proof. exact Proofs.C12.c12_kotlin_jvminline_refuted. Qed.
 Print Assumptions C12_kotlin_jvminline_refuted.
+
+(* Python, the formatter (every Rust type, any depth, from any state): translating a type never removes
+   an import and leaves imported every name of the fixed vocabulary (Optional, List, Dict, datetime)
+   the translated type spells.  ids: no user type name of t is a reserved word. *)
+Theorem C12_python_format_type :
+  forall (cfg : py_config) (generics : list str) (t : rtype),
+    Forall (fun id => ~ In id c12_py_reserved) (c12_rtype_ids t) ->
+    forall (s : py_state) (x : texp) (s' : py_state),
+      py_texp cfg generics t s = Ok (x, s') ->
+      incl (c12_py_imported s) (c12_py_imported s') /\
+      (forall u, In u (c12_py_tnames x) -> In u c12_py_fixed -> In u (c12_py_imported s')).
+Proof.
+  intros cfg generics t Hid s x s' H.
+  destruct (Proofs.C12_Python.c12_py_texp_imports cfg generics t Hid s x s' H) as [[L _] Q]. split; [exact L|exact Q].
+Qed.
+Print Assumptions C12_python_format_type.
+
+(* Python, the file - PARTIAL: every name the declarations of the body use (type names of the fixed
+   vocabulary at any depth, BaseModel / Generic / ConfigDict / Field / Annotated / BeforeValidator /
+   PlainSerializer / Enum / Literal / Union of the templates, the TypeVars of class headers) is defined or
+   imported by the header, OR is a generic parameter name of the program, OR one of the four
+   (de)serialiser function names.  Not yet proved (hence partial): outside C12-python-alias-typevar every
+   generic parameter name has its TypeVar; outside C12-python-default-translation the function names are
+   defined; the header's own uses (TypeVar, datetime in the helper functions).  The correspondence check
+   covers these on every generated case and the two classes have witness theorems below. *)
+Theorem C12_python_body_partial :
+  forall (uc : unicode) (cfg : py_config) (pd : parsed) (ds : list py_decl) (st : py_state),
+    py_decls uc cfg pd = Ok (ds, st) -> c12_py_dom cfg (items_of pd) = true ->
+    forall u, In u (flat_map (c12_py_decl_uses (c12_py_tv_vocab (items_of pd))) ds) ->
+      In u (c12_py_tv_vocab (items_of pd)) \/ In u Proofs.C12_Python.c12_py_fn_names \/
+      In u (c12_py_defs (py_type_variables st) (c12_py_fns st) (c12_py_imported st)).
+Proof. exact Proofs.C12_Python.c12_py_file_partial. Qed.
+Print Assumptions C12_python_body_partial.
+
+Theorem C12_python_alias_typevar_refuted :
+  c12_py_known Proofs.C12.c12_py_cfg0 Proofs.C12.c12_py_alias_pd = Some "C12-python-alias-typevar"%string /\
+  c12_py_dom Proofs.C12.c12_py_cfg0 (items_of Proofs.C12.c12_py_alias_pd) = true /\
+  exists uses defs, c12_py_observe uc_exec Proofs.C12.c12_py_cfg0 Proofs.C12.c12_py_alias_pd = Ok (uses, defs) /\
+                    In (lit "T") uses /\ ~ In (lit "T") defs /\ c12_good uses defs = false.
+Proof. exact Proofs.C12.c12_python_alias_typevar_refuted. Qed.
+Print Assumptions C12_python_alias_typevar_refuted.
+
+Theorem C12_python_default_translation_refuted :
+  c12_py_known Proofs.C12.c12_py_cfg0 Proofs.C12.c12_py_default_pd = Some "C12-python-default-translation"%string /\
+  c12_py_dom Proofs.C12.c12_py_cfg0 (items_of Proofs.C12.c12_py_default_pd) = true /\
+  exists uses defs, c12_py_observe uc_exec Proofs.C12.c12_py_cfg0 Proofs.C12.c12_py_default_pd = Ok (uses, defs) /\
+                    In (lit "parse_rfc3339") uses /\ ~ In (lit "parse_rfc3339") defs /\ c12_good uses defs = false.
+Proof. exact Proofs.C12.c12_python_default_translation_refuted. Qed.
+Print Assumptions C12_python_default_translation_refuted.
